@@ -25,9 +25,13 @@ MANIFEST = {
             "under collision resistance of double SHA-256 (explicit hypothesis); armoured text parses back under the property's "
             "hypotheses; verify of the repaired code is total. Model tied to the code by differential correspondence in both "
             "arithmetic configurations on every run; oracles with independent arithmetic evaluate the property on the implementation.",
-    "note": "ECDSA facts are taken from C01/C02 (hypotheses where not yet proved there); unforgeability and collision resistance "
-            "are assumptions. libsecp256k1 absent. The armour round trip is claimed for messages without armour marker lines, with "
-            "one newline style, not ending in a lone CR.",
+    "note": "Partial theorems and their named gaps: *_sign_then_verify_*_partial / *_recover_is_signer_*_partial need C01 "
+            "recover_complete (RecoverComplete: recovery from the nonce abscissa with the parity of y yields d*G first); ranges, "
+            "recovery id and abscissa are derived from C01 signLoop_sound and C02 reducedness. C17_verify_total_partial needs "
+            "RecoverTotal (possible_public_pairs_for_signature raises nothing for r in [1,n-1], x < p, and returns reduced points). "
+            "C17_other_message_partial needs RecoverInjective and the cryptographic hypothesis that the two digests differ mod n "
+            "(collision resistance of double SHA-256). Unforgeability is not claimed. libsecp256k1 absent. The armour round trip is "
+            "proved for messages without armour marker lines, with one newline style, not ending in a lone CR.",
     "technique": "Lean 4 proof over an executable model + differential correspondence model vs implementation per backend + "
                  "independent reference (hashlib, binascii, own secp256k1 arithmetic) as oracle",
 }
@@ -757,7 +761,7 @@ def gen(ctx, emit):
             emit("msg_recover %s %s %s %d" % (net, cfg, tx(sig_h), z0))
             assert Rh is not None
         # digests at and above the group order (msg_hash= form): signatures made with the reference arithmetic
-        for zz in (n - 1, n, n + 5, two256 - 1):
+        for zz in ((n - 1, n, n + 5, two256 - 1) if ctx.thorough else (n, two256 - 1)):
             kz = 0xC0FFEE + zz % 1000
             Rz = _Ref.mul(kz, _Ref.G)
             rz = Rz[0] % n
@@ -797,7 +801,7 @@ def gen(ctx, emit):
             sig = _mk_sig(rng.choice([29, 30, 33, 34]), rr, rng.randrange(1, n))
         emit("msg_verify %s %s %s %s %s" % (net, cfg, spec, tx(sig), tx("m")))
     # random well-formed signatures (recover some key): verify answers False for the fixed key, never raises
-    for _ in range(ctx.n(16, 500)):
+    for _ in range(ctx.n(10, 500)):
         net, cfg = rng.choice(NETS), rng.choice(CONFIGS)
         sig = _mk_sig(rng.randrange(27, 35), _point_r(rng.randrange(1, n)), rng.randrange(1, n))
         emit("msg_verify %s %s %s %s %s" % (net, cfg, rng.choice(key_specs), tx(sig), tx(rand_text(rng, 10))))
@@ -810,7 +814,7 @@ def gen(ctx, emit):
     for net, cfg, d, comp, text in corner:
         emit("msg_sign %s %s %d %d 0 %s" % (net, cfg, d, 1 if comp else 0, tx(text)))
         emit("msg_sign %s %s %d %d 1 %s" % (net, cfg, d, 1 if comp else 0, tx(text)))
-    for i in range(ctx.n(36, 600)):
+    for i in range(ctx.n(30, 600)):
         net, cfg = NETS[i % len(NETS)], CONFIGS[(i // 2) % 2]
         d, comp, text = rand_d(rng), rng.random() < 0.5, rand_message(rng)
         verbose = rng.random() < 0.4
